@@ -1,7 +1,8 @@
 //! Family "macros": one process = one global client (it can be set only once). A case invokes one
 //! statsd_* macro with 0..3 tags on a global client with a scripted sink and a counting error handler,
 //! and compares with what the tagged quiet send on the same client emits (C17).
-//! case syntax: m=<count|time|gauge|meter|histogram|distribution|set>;tags=<0..3>;fail=<0|1>;set=<0|1>
+//! case syntax: m=<count|time|gauge|meter|histogram|distribution|set>;tags=<0..3>;fail=<0|1>;set=<0|1>;pre=<0|1>
+//!   pre=1: the same thread first invokes the macro while NO client is set (it must panic), then the client is set
 use cadence::prelude::*;
 use cadence::{MetricError, MetricSink, StatsdClient};
 use cadence_macros::{statsd_count, statsd_distribution, statsd_gauge, statsd_histogram, statsd_meter, statsd_set, statsd_time};
@@ -17,13 +18,20 @@ impl MetricSink for Scripted {
 }
 
 pub fn run_case(s: &str) -> Result<Vec<(String, String)>, String> {
-    let (mut m, mut tags, mut fail, mut set) = ("count".to_string(), 0usize, false, true);
+    let (mut m, mut tags, mut fail, mut set, mut pre) = ("count".to_string(), 0usize, false, true, false);
     for kv in s.split(';') {
         let mut it = kv.splitn(2, '=');
         let (k, v) = (it.next().unwrap_or(""), it.next().unwrap_or(""));
-        match k { "m" => m = v.to_string(), "tags" => tags = v.parse().map_err(|_| "tags")?, "fail" => fail = v == "1", "set" => set = v == "1", "" => {}, _ => return Err(format!("bad key {}", k)) }
+        match k { "m" => m = v.to_string(), "tags" => tags = v.parse().map_err(|_| "tags")?, "fail" => fail = v == "1", "set" => set = v == "1", "pre" => pre = v == "1", "" => {}, _ => return Err(format!("bad key {}", k)) }
     }
     let mut fails = vec![];
+    if pre {
+        let prev = std::panic::take_hook();
+        std::panic::set_hook(Box::new(|_| {}));
+        let r = std::panic::catch_unwind(|| { statsd_count!("early.key", 1); });
+        std::panic::set_hook(prev);
+        if r.is_ok() { fails.push(("C17".to_string(), "macro did not panic although no global client was set yet".to_string())); }
+    }
     let log = Arc::new(Mutex::new(vec![]));
     let handled = Arc::new(Mutex::new(0usize));
     let h2 = handled.clone();
@@ -84,8 +92,8 @@ pub fn search(prop: &str, _seed: u64, _budget: u64) -> Option<(String, Vec<(Stri
     if prop != "C17" { return None; }
     let exe = std::env::current_exe().ok()?;
     for m in ["count", "time", "gauge", "meter", "histogram", "distribution", "set"] {
-        for tags in 0..4 { for fail in [0, 1] { for set in [1, 0] {
-            let case = format!("m={};tags={};fail={};set={}", m, tags, fail, set);
+        for tags in 0..4 { for fail in [0, 1] { for (set, pre) in [(1, 0), (0, 0), (1, 1)] {
+            let case = format!("m={};tags={};fail={};set={};pre={}", m, tags, fail, set, pre);
             let out = std::process::Command::new(&exe).args(["run", "macros", &case]).output().ok()?;
             if out.status.code() == Some(1) {
                 let text = String::from_utf8_lossy(&out.stdout).to_string();
